@@ -1,3 +1,15 @@
+// Verification yield points: expand to nothing unless the `verif-hooks` feature is on.
+#[cfg(feature = "verif-hooks")]
+macro_rules! verif_yield {
+	($name:expr) => {
+		$crate::verif::yield_point($name)
+	};
+}
+#[cfg(not(feature = "verif-hooks"))]
+macro_rules! verif_yield {
+	($name:expr) => {};
+}
+
 mod batch;
 pub mod bplustree;
 mod cache;
